@@ -24,9 +24,6 @@ CFG = os.path.join(common.SPECS, 'exact', 'GateLib.cfg')
 LAWS = os.path.join(common.SPECS, 'exact', 'MonoLaws.tla')
 LAWS_CFG = os.path.join(common.SPECS, 'exact', 'MonoLawsGate.cfg')
 
-NOT_MONOMIAL = ['BGate', 'CHGate', 'ECRGate', 'HGate', 'SqrtCNOTGate', 'SqrtISwapGate', 'SqrtXGate/SXGate', 'SqrtXdgGate/SXdgGate',
-                'XXGate', 'YYGate', 'U2Gate', 'U8Gate', 'CKMGate', 'CKMdgGate', 'RSU3Gate', 'VariableUnitaryGate']
-
 # Exported names of bqskit.ir.gates that are NOT in the catalogue, with the reason (reported in the evidence, and checked against
 # the package's __all__ at run time so that a new export cannot go unnoticed).
 OUTSIDE = {
@@ -35,10 +32,10 @@ OUTSIDE = {
     'SqrtXdgGate': 'never monomial', 'SXdgGate': 'never monomial', 'XXGate': 'never monomial', 'YYGate': 'never monomial',
     'U2Gate': 'never monomial (every entry has modulus 1/sqrt 2)',
     'U1qPi2Gate': 'FrozenParameterGate(U1qGate, theta = pi/2): never monomial',
-    'PhasedXZGate': 'its parameters are exponents (turns); its only monomial points on the pi/4 lattice of the catalogue are the identity',
+    'PhasedXZGate': 'its parameters are exponents (in units of pi): on the pi/4 parameter lattice of the catalogue it is monomial only where it is the identity',
     'VariableUnitaryGate': 'its parameters are matrix entries, not angles: no point of the pi/4 lattice is a unitary',
     'MeasurementPlaceholder': 'no matrix (placeholder)', 'Reset': 'no matrix (placeholder)', 'BarrierPlaceholder': 'no matrix (placeholder)',
-    'ComposedGate': 'abstract base class', 'QuditGate': 'abstract base class', 'GeneralGate': 'abstract base class (Gate defined by a user expression)',
+    'ComposedGate': 'abstract base class', 'QuditGate': 'abstract base class', 'GeneralGate': 'abstract base class (gates that parameterise any unitary)',
 }
 # exported name -> how the catalogue reaches it
 INSIDE_NAMED = {'XGate': 'X', 'YGate': 'Y', 'ZGate': 'Z', 'SGate': 'S', 'SdgGate': 'Sdg', 'TGate': 'T', 'TdgGate': 'Tdg', 'SqrtTGate': 'SqrtT',
@@ -239,19 +236,40 @@ def tab(U):
     return NOOBS if U is None else exact.table_of(np.asarray(U))
 
 
+def eq_rows(g):
+    """Pairs (i < j) of slices of a gradient array that are the same matrix (to 1e-9): an observation; which pairs may be
+    equal is judged by the specification."""
+    g = np.asarray(g)
+    if g.ndim != 3 or not 2 <= len(g) <= 16:
+        return []
+    return [[i, j] for i in range(len(g)) for j in range(i + 1, len(g)) if np.abs(g[i] - g[j]).max() <= 1e-9]
+
+
 def ug_of(gate, params):
-    """get_unitary_and_grad(params) as observed: (answered?, table of the unitary part, shape of the gradient part padded with -1
-    to three entries).  NotImplementedError is the documented way of having no gradient; anything else that is raised is
-    observed as "no matrix" (and judged by the specification)."""
+    """get_unitary_and_grad(params) as observed: dict(has_ug = answered?, obs_ug = table of the unitary part, ug = shape of the
+    gradient part padded with -1 to three entries, gg_diff = max |gradient part - get_grad(params)| in units of 1e-9 (-1: the
+    two cannot be compared: other shape, or get_grad raised), gg_agree = that difference is below 1e-7, ug_eq = pairs of equal
+    slices of the gradient part).  NotImplementedError is the documented way of having no gradient; anything else that is
+    raised is observed as "no matrix" (and judged by the specification)."""
+    out = {'has_ug': True, 'obs_ug': NOOBS, 'ug': [-1, -1, -1], 'gg_diff': -1, 'gg_agree': False, 'ug_eq': []}
     try:
         U2, g = gate.get_unitary_and_grad(params)
-        shp = [int(x) for x in np.asarray(g).shape]
-        shp = (shp + [-1, -1, -1])[:3] if len(shp) <= 3 else [-2, -2, -2]
-        return True, exact.table_of(np.asarray(U2)), shp
     except NotImplementedError:
-        return False, DUMMY, [-1, -1, -1]
+        out.update(has_ug=False, obs_ug=DUMMY)
+        return out
     except Exception:
-        return True, NOOBS, [-1, -1, -1]
+        return out
+    g = np.asarray(g)
+    shp = [int(x) for x in g.shape]
+    out.update(obs_ug=exact.table_of(np.asarray(U2)), ug=(shp + [-1, -1, -1])[:3] if len(shp) <= 3 else [-2, -2, -2], ug_eq=eq_rows(g))
+    try:
+        g2 = np.asarray(gate.get_grad(params))
+        if g2.shape == g.shape:
+            diff = float(np.abs(g - g2).max()) if g.size else 0.0
+            out.update(gg_diff=int(min(diff / 1e-9, 2e9)), gg_agree=bool(diff < 1e-7))
+    except Exception:
+        pass
+    return out
 
 
 def observe_named(name, p, rs):
@@ -260,7 +278,7 @@ def observe_named(name, p, rs):
     params = reals(ps)
     adv, U = adv_of(gate, params)
     c = {'kind': 'named', 'name': name, 'p': list(p) or [0], 'r': list(rs), 'adv': adv, 'obs': tab(U)}
-    c['has_ug'], c['obs_ug'], c['ug'] = ug_of(gate, params)
+    c.update(ug_of(gate, params))
     ex = getattr(gate, '_expr', None)
     if ex is not None:
         try:
@@ -285,7 +303,7 @@ def observe_named(name, p, rs):
 #   ('embedded', c, outer_radixes, maps) ('circuit', radixes, [(c, loc), ...])
 def blank(k):
     return {'k': k, 'name': '-', 'p': [0], 'cp': [0], 'r': [2], 't': [{'idx': 0, 'ph': 0}], 'n': 0, 'cr': [2], 'levels': [[0]],
-            'maps': [[0]], 'tag': '', 'fz': [], 'sub': [], 'locs': [], 'given': [], 'sel': 0, 'gs': [-1, -1, -1]}
+            'maps': [[0]], 'tag': '', 'fz': [], 'sub': [], 'locs': [], 'given': [], 'sel': 0, 'gs': [-1, -1, -1], 'eq': []}
 
 
 def table_matrix(tab):
@@ -340,13 +358,14 @@ def other_point(rng, label, args):
 def realise(c, rng):
     """construction -> (gate, parameter ints q of the gate, descriptor with the observed tables of its parts).  Every node of the
     descriptor also carries 'gs', the observed shape of the part's own get_grad (input-class bookkeeping for known findings;
-    the specification does not read it)."""
+    the specification does not read it) and 'eq', the pairs of equal slices of that gradient (read by the aliasing clause)."""
     gate, q, d = _realise(c, rng)
     try:
-        shp = [int(x) for x in np.asarray(gate.get_grad(reals(q))).shape]
-        d['gs'] = (shp + [-1, -1, -1])[:3]
+        g = np.asarray(gate.get_grad(reals(q)))
+        d['gs'] = ([int(x) for x in g.shape] + [-1, -1, -1])[:3]
+        d['eq'] = eq_rows(g)
     except Exception:
-        d['gs'] = [-1, -1, -1]
+        d['gs'], d['eq'] = [-1, -1, -1], []
     return gate, q, d
 
 
@@ -448,7 +467,7 @@ def observe_composed(c, rng):
     params = reals(q)
     adv, U = adv_of(gate, params)
     case = {'kind': 'composed', 'd': d, 'adv': adv, 'obs': tab(U), 'top': c[0], 'leaves': leaves(d), 'q': q}
-    case['has_ug'], case['obs_ug'], case['ug'] = ug_of(gate, params)
+    case.update(ug_of(gate, params))
     return case, gate, q
 
 
@@ -620,6 +639,8 @@ def wrap(rng, c, maxdim=96):
         maps = [rng.sample(range(o), r) for r, o in zip(rs, outer)]
         return ('embedded', c, outer, maps)
     if k == 'vlg':
+        if len(rs) > 4:
+            return None
         n = min(4, len(rs) + rng.randint(0, 2))
         if any(r != 2 for r in rs) and rng.random() < 0.7:
             return None         # (the qubit-only implementation: mostly qubit parts, a few others to keep the clause alive)
@@ -701,6 +722,11 @@ def composed_catalogue(rng, count):
         if rs[0] == 2 and len(rs) <= 2:
             locs = VLG_LOCS[len(rs)][0]
             out += [('vlg', o, locs, [], sel, 64, 0) for sel in range(len(locs))]
+    # CircuitGate around parts with several parameters (gradient slices of different parts and parameters side by side)
+    u3, cu, fs, u1q = (('base', n, None, r) for n, r in (('U3', [2]), ('CU', [2, 2]), ('FSIM', [2, 2]), ('U1q', [2])))
+    out += [('circuit', [2, 2], [(u3, [0]), (cu, [0, 1])]), ('circuit', [2, 2], [(cu, [1, 0]), (u3, [1]), (u1q, [0])]),
+            ('circuit', [2, 2, 2], [(fs, [0, 2]), (u3, [1]), (cu, [2, 1])]), ('circuit', [2], [(u3, [0]), (u1q, [0])]),
+            ('circuit', [2, 2], [(('embedded', u3, [2], [[1, 0]]), [1]), (('controlled', u1q, [2], [[1]]), [0, 1])])] * 2
     # the two FrozenParameterGate objects the package exports: U1qPiGate is on the exact domain (U1qPi2Gate never is)
     out += [('exported', 'U1qPiGate', ('frozen', ('base', 'U1q', [4, a], [2]), [0])) for a in (0, 3, -2)]
     while len(out) < count:
@@ -864,7 +890,7 @@ def input_classes(d):
 
 
 # which of a case's input classes a verdict of a clause is filed under (the first the case has); any other clause: all of them
-CLASS_ORDER = {'dimension': ['vlg-non-qubit', 'vlg-constant-part'],
+CLASS_ORDER = {'dimension': ['vlg-non-qubit', 'vlg-constant-part', 'controlled-constant-part'],
                'unitary_and_grad-value': ['vlg-non-qubit', 'vlg-constant-part', 'controlled-constant-part', 'vlg-non-involutive']}
 
 
@@ -894,7 +920,7 @@ def recipes_of(ctx):
     recipes = []
     for name, p, rs in named:
         recipes.append({'how': 'named', 'args': [name, p, rs]})
-    for c in composed_catalogue(rng, 900 if quick else 9000):
+    for c in composed_catalogue(rng, 1400 if quick else 9000):
         s = rng.randrange(1 << 30)
         recipes.append({'how': 'composed', 'c': c, 'seed': s})
         if rng.random() < 0.6:
@@ -980,9 +1006,17 @@ def run(ctx: Ctx) -> Outcome:
             laws_states += r.distinct
             laws_trans += r.states
             laws_cov[cfg] = {'distinct_states': r.distinct, 'states_generated': r.states, 'actions': r.coverage}
-    kinds = {}
+    kinds, tops = {}, {}
     for c in cases:
         kinds[c['kind']] = kinds.get(c['kind'], 0) + 1
+        if c['kind'] == 'composed':
+            tops[c['top']] = tops.get(c['top'], 0) + 1
+    withug = [c for c in cases if c['kind'] in ('named', 'composed')]
+    ug_cov = {'cases_with_the_clause': len(withug), 'answered': sum(1 for c in withug if c['has_ug']),
+              'declared_no_gradient(NotImplementedError)': sum(1 for c in withug if not c['has_ug']),
+              'with_parameters': sum(1 for c in withug if c['adv']['np'] > 0),
+              'without_parameters': sum(1 for c in withug if c['adv']['np'] == 0)}
+    vlg = [c for c in cases if c['kind'] == 'composed' and "'k': 'vlg'" in str(c['d'])]
 
     def nontrivial(c):
         if c['kind'] in ('named', 'qiskit'):
@@ -997,9 +1031,14 @@ def run(ctx: Ctx) -> Outcome:
         'rule': 'one case = one gate object built through the public constructors and observed (named gate at one parameter point / '
                 'composed construction / inverse pair / pair of constructions compared with == and hash / Qiskit matrix of the same '
                 'name); named gates and the systematic compositions are enumerated, the rest is seeded random; non-trivial = the '
-                'matrix is not the identity (named) or the construction has a composing constructor; distinct by content hash',
+                'matrix is not the identity (named) or the construction has a composing constructor or is a gate outside the named '
+                'library at an exact-domain point; distinct by content hash',
         'exhaustive': False,
         'by_kind': kinds,
+        'composed_by_outermost_constructor': tops,
+        'unitary_and_grad_clause': ug_cov,
+        'variable_location_gate_cases': len(vlg),
+        'exported_gate_census': export_census(),
         'library_names': sorted({c['name'] for c in cases if c['kind'] == 'named'}),
         'algebra_model_checking': laws_cov,
         'samples': [{k: v for k, v in cases[i].items() if k not in ('obs_x', 'obs_ug')} for i in (3, len(cases) // 2, len(cases) - 2)
@@ -1008,7 +1047,6 @@ def run(ctx: Ctx) -> Outcome:
                        'tlc -coverage 1 -config specs/exact/MonoLawsGate.cfg specs/exact/MonoLaws.tla',
         'trusted_base': ['TLC', 'harness/exact.py discretiser (argmax + phase class + 1e-7 tolerance)',
                          'harness/checks/c18.py construction and observation code'],
-        'not_decided': NOT_MONOMIAL,
     }
     out.assumptions = ['parameters are integer multiples of pi/4 (pi for X/Y-type rotations): the monomial points of each gate',
                        'phases are multiples of 2*pi/48; matrices are read off with tolerance 1e-7']
